@@ -63,7 +63,7 @@ def exc_class(ex):
 PIECES = [';', ':', ',', '\\', '"', '\r', '\n', '\r\n', '\\;', '\\\\', '\\:', '\\"', ';;', '\\n', ' ', 'N:', 'END:VCARD',
           'BEGIN:VCARD', ';P:x', ';;S:x;', 'T:WPA', 'H:true', '\\\\;', ':\\', '";', ',,', '\n\r', 'ADR:', 'TEL:1', 'WIFI:',
           'MECARD:', '\t', '%', '&', '?', '=', '#', '+', '/', '~', "'", '<', '>', '\x00', '\x7f']
-UNI = ['ä', 'ö', 'ß', 'é', '€', 'Ω', 'ж', '漢', '字', 'ｱ', '😀', '\xa0', '\u2028', '\u0085', 'ő', 'ķ', 'ð', 'ā', '\u200b', 'ﬁ']
+UNI = ['\u037e', 'a\u037eb', '\u212b', 'e\u0301', '\u1e9b\u0323', 'ä', 'ö', 'ß', 'é', '€', 'Ω', 'ж', '漢', '字', 'ｱ', '😀', '\xa0', '\u2028', '\u0085', 'ő', 'ķ', 'ð', 'ā', '\u200b', 'ﬁ']
 PLAIN = string.ascii_letters + string.digits
 
 
@@ -590,6 +590,26 @@ def concurrency_pass(cases, res, per_factory=64):
     res.count('concurrency-pass:scheduled-calls', len(sample))
 
 
+def decimal_context_block(cases, res):
+    """the payload does not depend on the ambient `decimal` context of the calling thread (precision, rounding)"""
+    sample = [c for c in cases if c.factory == 'epc' and c.exc is None][:120]
+    for c in sample:
+        ref = bytes(FUNCS['epc'](**c.kw))
+        # precision only: the rounding MODE of the context is the caller's explicit choice and does show in `format(amount, '.2f')`
+        # (ROUND_DOWN turns the float 96.6 into EUR96.59) — observed, not claimed either way
+        for ctx in (decimal.Context(prec=5), decimal.Context(prec=3), decimal.Context(prec=1)):
+            with decimal.localcontext(ctx):
+                try:
+                    got = bytes(FUNCS['epc'](**c.kw))
+                except Exception as ex:  # noqa
+                    got = 'raised ' + exc_class(ex)
+            res.evaluations += 1
+            if got != ref:
+                res.violations.append(dict(property_field='c16', verdict='payload-depends-on-the-ambient-decimal-context', call=c.call() + f'  [decimal context prec={ctx.prec} rounding={ctx.rounding}]',
+                                           replay=c.replay(), known_id=None))
+                break
+
+
 def run_C16(tier, rnd, st, res):
     f = 1 if tier == 'quick' else 100
     sizes = dict(wifi=900 * f, mecard=800 * f, vcard=800 * f, geo=700 * f, mailto=700 * f, epc=1800 * f)
@@ -602,6 +622,7 @@ def run_C16(tier, rnd, st, res):
     cases += list(gen_epc(rnd, sizes['epc']))
     cases = sweep_helpers(cases, st, res, tier, rnd, 50 if tier == 'quick' else 1000)
     concurrency_pass(cases, res, 64 if tier == 'quick' else 400)
+    decimal_context_block(cases, res)
     if tier == 'quick' and (st.broken or res.corr_diffs) and not res.violations:
         # directed search (DESIGN §5 step 4): a proof obligation or the correspondence broke but no judged input failed:
         # run the larger generator through the judge
